@@ -227,18 +227,26 @@ func (i *Index) AddDesc(d Descriptor, opts ...IndexOpt) {
 		}
 	}
 	// search for matching or compatible entry
+	// an entry with the same tag and referrer is preferred over an entry without a tag or referrer,
+	// entries for another tag or referrer of the same digest are left alone
+	compat := -1
 	for mi, md := range i.Manifests {
 		if md.Digest == d.Digest {
 			if tag == "" && referrer == "" {
 				return
 			}
-			if md.Annotations == nil ||
-				((tag == "" || md.Annotations[AnnotRefName] == "" || md.Annotations[AnnotRefName] == tag) &&
-					(referrer == "" || md.Annotations[AnnotReferrerSubject] == "" || md.Annotations[AnnotReferrerSubject] == referrer)) {
+			if md.Annotations[AnnotRefName] == tag && md.Annotations[AnnotReferrerSubject] == referrer {
 				i.Manifests[mi] = d
 				return
 			}
+			if compat < 0 && md.Annotations[AnnotRefName] == "" && md.Annotations[AnnotReferrerSubject] == "" {
+				compat = mi
+			}
 		}
+	}
+	if compat >= 0 {
+		i.Manifests[compat] = d
+		return
 	}
 	// append entry if no match found
 	i.Manifests = append(i.Manifests, d)
@@ -272,7 +280,7 @@ func (i *Index) RmDesc(d Descriptor) {
 		if d.Digest != "" && i.Manifests[mi].Digest == d.Digest {
 			if tag != "" {
 				// deleting a tag leaves one untagged manifest entry
-				if found && (i.Manifests[mi].Annotations == nil || i.Manifests[mi].Annotations[AnnotRefName] == tag) {
+				if found && ((i.Manifests[mi].Annotations[AnnotRefName] == "" && i.Manifests[mi].Annotations[AnnotReferrerSubject] == "") || i.Manifests[mi].Annotations[AnnotRefName] == tag) {
 					i.Manifests[mi] = i.Manifests[len(i.Manifests)-1]
 					i.Manifests = i.Manifests[:len(i.Manifests)-1]
 				} else if i.Manifests[mi].Annotations != nil && i.Manifests[mi].Annotations[AnnotRefName] == tag {
